@@ -27,8 +27,17 @@ pub struct TrafficRun {
 }
 
 pub fn setup(t: &mut Tape, mode: Mode) -> TrafficRun {
+    setup_opts(t, mode, false)
+}
+
+/// `loaded`: small target rotation time and one application per station that never declines, so
+/// that token visits end because the hold time is over.
+pub fn setup_opts(t: &mut Tape, mode: Mode, loaded: bool) -> TrafficRun {
     let max_n = if mode == Mode::C13 { 4 } else { 3 };
-    let cfg = gen_ring_cfg(t, &GenOpts { min_n: 1, max_n, max_hsa_extra: 10, late_joiners: false });
+    let mut cfg = gen_ring_cfg(t, &GenOpts { min_n: 1, max_n, max_hsa_extra: 10, late_joiners: false });
+    if loaded {
+        cfg.ttr_bits = 256 + t.below(3000) as u32;
+    }
     // peers: 2..4 addresses that are not masters
     let masters = cfg.sorted_addrs();
     let mut peers: BTreeMap<u8, (PeerKind, u64)> = BTreeMap::new();
@@ -69,7 +78,10 @@ pub fn setup(t: &mut Tape, mode: Mode) -> TrafficRun {
         };
         let mut sp = vec![];
         for j in 0..napps {
-            let s = gen_app_spec(t, &targets, true);
+            let mut s = gen_app_spec(t, &targets, true);
+            if loaded && j == 0 {
+                s.burst = u32::MAX;
+            }
             node.apps.push(Box::new(TrafficApp::new(si, j, node.addr, s.clone(), log.clone())));
             sp.push(s);
         }
@@ -417,6 +429,63 @@ fn c15_oracle(r: &TrafficRun, obs: &mut Obs) -> CaseResult {
     if replies + timeouts > 0 {
         obs.nontrivial(fingerprint(&(format!("{:?}", r.cfg.baud), r.cfg.sorted_addrs(), r.cfg.slot_bits, format!("{:?}", r.specs), format!("{:?}", r.peers))));
     }
+    Ok(())
+}
+
+/// C12 under load: the GAP keeps being swept - one poll per token visit, pauses of G..G+2 visits
+/// between sweeps - also when the token visits are cut short by the hold time.
+pub fn gap_under_load_case(t: &mut Tape, obs: &mut Obs) -> CaseResult {
+    let mut r = setup_opts(t, Mode::C13, true);
+    run(&mut r, 6000);
+    let Some(c) = r.converged_at else {
+        obs.label("not-converged-within-horizon");
+        return Ok(());
+    };
+    let n = r.sim.nodes.len();
+    let ring = r.cfg.sorted_addrs();
+    let ttr_us = r.cfg.baud.bits_to_time(r.cfg.ttr_bits).total_micros() as i64 + 1;
+    let rot = rotation_bound_us(&r.cfg, n);
+    let g = usize::from(r.cfg.gap);
+    let b = r.sim.bus.0.borrow();
+    let mut judged = 0u64;
+    for x in 0..n {
+        let addr = r.sim.nodes[x].addr;
+        let pos = ring.iter().position(|a| *a == addr).unwrap();
+        let ns = ring[(pos + 1) % ring.len()];
+        let gap = crate::props::c12::gap_set(addr, ns, r.cfg.hsa);
+        if gap.is_empty() {
+            continue;
+        }
+        // token visits, counted by the station's own token passes (a repeated pass - the successor did
+        // not react - belongs to the same visit; token receipts would count a predecessor's repeated
+        // pass twice)
+        let mut visits: Vec<i64> = vec![];
+        let mut last_own: Option<&[u8]> = None;
+        for q in b.trace.iter().filter(|q| q.sender == x) {
+            let is_token = q.bytes.first() == Some(&rc::SD4);
+            if is_token && last_own != Some(&q.bytes[..]) && q.start_ns / 1000 > c + 2 * rot + ttr_us {
+                visits.push(q.start_ns / 1000);
+            }
+            last_own = Some(&q.bytes[..]);
+        }
+        let polls: Vec<i64> = b.trace.iter().filter(|q| q.sender == x).filter(|q| matches!(rc::decode_one(&q.bytes), Some(RefFrame::Data { fc: 0x49, dsap: None, ssap: None, .. }))).map(|q| q.start_ns / 1000).collect();
+        let w = g + 4;
+        if visits.len() <= w {
+            continue;
+        }
+        for i in 0..visits.len() - w {
+            let (from, to) = (visits[i], visits[i + w]);
+            let any = polls.iter().any(|p| *p > from && *p < to);
+            ensure!(any, "gap-not-swept-under-load", "station #{addr} (GAP {:?}, gap factor {g}, TTR {} bit) sent no GAP poll during {} consecutive token visits from {} us to {} us; its applications kept it busy until the hold time was over", gap, r.cfg.ttr_bits, w, from, to);
+            judged += 1;
+        }
+    }
+    obs.count("windows_judged", judged);
+    let cut = r.log.borrow().iter().filter(|c| matches!(c, Cb::Tx { sent: Some(_), .. })).count();
+    if judged > 0 {
+        obs.nontrivial(fingerprint(&(format!("{:?}", r.cfg.baud), r.cfg.sorted_addrs(), r.cfg.ttr_bits, r.cfg.slot_bits, r.cfg.gap, format!("{:?}", r.specs))));
+    }
+    obs.sample(|| json!({"config": r.cfg.describe(), "application_requests": cut, "windows_judged": judged}));
     Ok(())
 }
 
